@@ -262,6 +262,24 @@ func cmdProp(args []string) int {
 	}
 	dir, _ := os.MkdirTemp("", "govc")
 	defer os.RemoveAll(dir)
+	if !*update && *tier != "thorough" {
+		// obligations recorded as not discharging on the unchanged tree are never counted and never
+		// alarm; the quick tier does not spend the portfolio timeout on them (the thorough tier does)
+		var pre baselineFile
+		if data, err := os.ReadFile(filepath.Join(*vdir, "baseline", *id+".json")); err == nil && json.Unmarshal(data, &pre) == nil {
+			findingObl := map[string]bool{}
+			for _, f := range readFindings(filepath.Join(*vdir, "known_findings.txt")) {
+				findingObl[f.Obligation] = true
+			}
+			for _, c := range vcs {
+				for _, o := range c.obls {
+					if _, ok := pre.Unclaimed[o.Name]; ok && !findingObl[o.Name] {
+						o.Status, o.Solver = "skipped", "unclaimed-in-baseline"
+					}
+				}
+			}
+		}
+	}
 	solveAll(vcs, dir, *par, qsecs, fsecs, *verbose)
 
 	// collect
